@@ -841,3 +841,9 @@ def run(chk):
         c06_utils = None
     if c06_utils is not None:
         c06_utils.run(chk)
+    try:
+        import c06_pipeline
+    except ImportError:
+        c06_pipeline = None
+    if c06_pipeline is not None:
+        c06_pipeline.run(chk)
